@@ -207,7 +207,9 @@ func (b *assignmentBuilder) structFieldAndStructGettersAndFields(lhs bmodel.Node
 				a = nestStruct
 			}
 		}
-		return true
+		// Keep looking when this candidate did not fit: under ":case:off" another
+		// member whose name differs only in case may.
+		return a != nil || err != nil || nested
 	}
 
 	if opts.Getter {
